@@ -258,7 +258,8 @@ def do_edit(cg, c, kind, k1, k2):
     elif kind == "remove":
         c.remove(a)
     elif kind == "connect":
-        c.graph.add_edge(a, b)
+        if a in c.graph and b in c.graph:
+            c.graph.add_edge(a, b)
     elif kind == "disconnect":
         es = sorted(c.graph.edges)
         if es:
@@ -321,7 +322,7 @@ def run(case, ctx):
             j %= len(pool)
             c, other = pool[i], pool[j]
             size = len(c) + (len(other) if f == "tx.miter" and p["flag"] else 0)
-            nsp = len(c.startpoints())
+            nsp = sum(1 for x in c.graph.nodes if c.graph.nodes[x].get("type") in ("input", "bb_output"))
             if size > 150 or (f in HEAVY and (size > 45 or nsp > 7)) or (f in SOLVER_FUNCS and size > 90):
                 ctx.log(step, "skip-heavy", f)
                 ctx.probe("skipped_heavy")
